@@ -433,12 +433,21 @@ func c16Gen(seed int64, idx int) *c16Case {
 		// references to the same typedef next to the leaf (each with a pattern of its own that rejects nothing)
 		depth := r.Range(1, 4)
 		prev := "string"
+		var levels []*yang.Stmt
 		for i := 1; i <= depth; i++ {
 			name := fmt.Sprintf("w%d", i)
-			m.Add(yang.S("typedef", name, yang.S("type", prev)))
+			lt := yang.S("type", prev)
+			levels = append(levels, lt)
+			m.Add(yang.S("typedef", name, lt))
 			prev = name
 		}
 		typ.Arg = prev
+		// with two patterns: one of them may stand on a typedef of the chain, the other stays on the leaf's type
+		// (patterns of all levels hold together)
+		if ps := typ.FindAll("pattern"); len(ps) >= 2 && r.Bool() {
+			typ.Remove(ps[0])
+			core.Pick(r, levels).Add(ps[0])
+		}
 		cont.Kids = append([]*yang.Stmt{yang.S("leaf", "sib-before", yang.S("type", prev, yang.S("pattern", ".*")))}, cont.Kids...)
 		cont.Add(yang.S("leaf", "sib-after", yang.S("type", prev, yang.S("pattern", "(.*)|(never)"), yang.S("pattern", ".*"))))
 	}
